@@ -622,6 +622,15 @@ class Summaries:
         # subtle
         if tp == "subtle::ConditionallySelectable::conditional_select" and s0[0] == "int":
             return ite(Tm.choice_true(a[2]), a[1], a[0])
+        if tp in ("subtle::ConditionallySelectable::conditional_assign", "subtle::ConditionallySelectable::conditional_swap") \
+                and not (ctx.c.get("inst") or {}).get("local") and len(a) == 3:
+            # subtle's provided defaults (the type does not override them): in terms of the type's own conditional_select, which for every
+            # type the crate passes here is the ITE the SELECT rules establish
+            c_ = Tm.choice_true(a[2])
+            ctx.write(0, ite(c_, a[1], a[0]))
+            if name == "conditional_swap":
+                ctx.write(1, ite(c_, a[0], a[1]))
+            return UNIT
         if tp == "core::convert::From::from" and "subtle::Choice" in key:
             return a[0]
         if tp == "core::ops::Not::not" and s0[0] == "choice":
